@@ -50,7 +50,7 @@ def write_tables(dirpath):
         363002: [363001, 101000, 31001, nums[20]],
         363003: [201130, nums[3], 201000, 102000, 31002, nums[4], 62000 + 14],
         363004: [204008, 31021, nums[7], 62000 + 30, 204000],
-        363005: [103000, 31000, 363001, 363004],
+        363005: [102000, 31000, 363001, 363004],
     }
     pd = os.path.join(dirpath, "synth_local_d")
     with open(pd, "w") as f:
